@@ -72,7 +72,8 @@ TraceQuiesce ==
      /\ Judge(ToSet(e.released) = {o.id : o \in live}, "ownership_protocol")
   /\ UNCHANGED vars
 TraceAbort == IsEvent("abort") /\ Report("VERDICT", "abort") /\ UNCHANGED <<vars, heap>>
-TraceNext == TraceBegin \/ TraceCall \/ TraceQuiesce \/ TraceAbort
+TraceTimeout == IsEvent("timeout") /\ Report("VERDICT", "timeout") /\ UNCHANGED <<vars, heap>>
+TraceNext == TraceBegin \/ TraceCall \/ TraceQuiesce \/ TraceAbort \/ TraceTimeout
 TraceSpec == Init /\ l = 1 /\ heap = {} /\ [][TraceNext]_tvars
 Accepted == LET d == TLCGet("stats").diameter IN
             IF d - 1 = Len(TraceLog) THEN PrintT(<<"ACCEPTED", Len(TraceLog)>>)
